@@ -506,8 +506,8 @@ STUBM = 'member type is a harness stub (2-octet restartable value: RC_WMORE unti
 SQO = dict(harness='harness/h_seq_oer.c', units=[SK + 'constr_SEQUENCE_oer.c', SK + 'constr_SEQUENCE.c'],
            link=[SK + 'constr_SEQUENCE.c', SK + 'asn_bit_data.c', SK + 'oer_support.c', SK + 'oer_decoder.c'],
            fp_restrict=[(r'oer_decoder\)$', ['sv_oer']), (r'free_struct\)$', ['sv_free'])], trusted=[STUBM, 'stubs/memcpy16.c replaces the CBMC memcpy model'], stubs=['stubs/memcpy16.c'])
-for _e, _n, _u in ((0, 8, 11), (1, 10, 13)):
-    _bd = 'SEQUENCE { a, b OPTIONAL, c%s } of stub members; every input of at most %d octets%s' % (', ..., d' if _e else '', _n, ' whose extension-addition bitmap is one octet' if _e else '')
+for _e, _n, _u in ((0, 8, 11), (1, 10, 13), (2, 11, 14)):
+    _bd = 'SEQUENCE { a, b OPTIONAL, c%s } of stub members; every input of at most %d octets%s' % (', ..., d' if _e else '', _n, ' whose extension-addition bitmap is one octet' if _e == 1 else ' with the fixed frame: extension bit set, b absent, bitmap of 2 bits (d, and one addition unknown here)' if _e == 2 else '')
     O(id='SEQUENCE_decode_oer.e%d' % _e, props=['C04', 'C14', 'C03'], kind='bounded', tier='experimental' if _e else 'quick', entry='h_SEQUENCE_decode_oer', functions=['SEQUENCE_decode_oer', 'SEQUENCE_free', 'asn_bit_data_new_contiguous', 'asn_get_few_bits', 'oer_open_type_get', 'oer_open_type_skip', 'oer_fetch_length'],
       defines=['VF_EXT=%d' % _e, 'VF_N=%d' % _n], unwind=_u, cbmc=['--unwindset', 'asn_get_few_bits:3,memcpy.0:18', '--malloc-may-fail', '--malloc-fail-null', '--memory-leak-check'],
       bound=_bd + ' in an exact-size heap buffer; every allocation may fail', min_props=80, timeout=1500, mem_gb=30, **SQO)
@@ -669,6 +669,10 @@ O(id='OCTET_STRING__convert_hexadecimal.t6', props=['C03', 'C04', 'C05'], kind='
 O(id='OCTET_STRING__convert_binary.t6', props=['C03', 'C04', 'C05'], kind='bounded', entry='h_convert_binary', functions=['OCTET_STRING__convert_binary'],
   bound='every text of at most 6 characters, every split point (two chunks)', min_props=40, timeout=900, **OSX)
 
+O(id='codec_ctx_scan', props=['C15'], kind='static', harness='tools/ctx_scan.py', entry='main', script='tools/ctx_scan.py',
+  script_args=['c15_ctx_allow.json'], functions=[], no_canary=True,
+  bound='whole skeleton library: every call from a function that has a codec-context parameter to a context-taking callee (by name or through a decoder slot) passes that parameter itself, by goto-program text; what the callee does with it is not tracked')
+
 for _o in OBLIGATIONS:
     if _o.get('enforce') and _o.get('kind') in ('enforce', 'width') and _o.get('tier') == 'quick' and 'C19' not in _o['props']:
         _o['props'] = _o['props'] + ['C19']
@@ -690,7 +694,7 @@ UNVERIFIED = {
  'C09': ['asn1constraint_compute_constraint_range (recursion over parsed constraint ASTs, value resolution), asn1constraint_pullup, asn1f_resolve_constraints', '_range_intersection (obligations experimental: out of memory / time), _range_union with three or more pieces, _range_canonicalize', 'emit_single_member_OER_constraint_size, alphabet-size branch of emit_single_member_PER_constraint', 'the consequence clause (same root set => same encoding) follows only as far as the tree evaluation is covered, i.e. it is not claimed'],
  'C13': ['options acting in the code generator (-fcompound-names, -findirect-choice, -fno-include-deps, -fincludes-quoted, -fno-constraints, codec disabling): properties of emitted text', 'NativeReal vs REAL, NativeEnumerated vs ENUMERATED', 'pointer-vs-inline members in constructed codecs'],
  'C14': [CONSTR, XERU, 'asn_set_add/del/empty obligation is experimental (realloc model runs out of memory)', 'uper_open_type_put leak obligation experimental'],
- 'C15': ['machine stack depth: not expressible (CBMC has no stack-size notion; ASN__STACK_OVERFLOW_CHECK compares addresses of different objects)', CONSTR, 'OCTET_STRING_decode_ber expectation stack'],
+ 'C15': ['machine stack depth: not expressible (CBMC has no stack-size notion; ASN__STACK_OVERFLOW_CHECK compares addresses of different objects); only the propagation of the codec context to every context-taking callee is checked (static fact codec_ctx_scan)', CONSTR, 'OCTET_STRING_decode_ber expectation stack'],
  'C16': ['asn_REAL2double on arbitrary REAL encodings (only encodings produced by asn_double2REAL are covered, in the thorough tier); decimal NR1-3 forms (strtod)', 'decimal parsers beyond 7 characters except the overflow-boundary neighbourhood', 'asn_INTEGER2imax/umax beyond 24 octets'],
  'C17': ['asn_GT2time*, asn_time2GT*, asn_UT2time, asn_time2UT: not applicable (libc calendar, TZ)', 'OBJECT_IDENTIFIER_parse_arcs, OBJECT_IDENTIFIER_get_arcs beyond 4 arcs, RELATIVE-OID'],
  'C18': [GEN + ' (emit_member_type_selector, asn1c_ioc.c object-set matrix, WITH SYNTAX parsing)', 'OPEN_TYPE_xer_get, OPEN_TYPE_uper_get', 'the SEQUENCE decoders that call the getters'],
